@@ -481,6 +481,10 @@ fn gen_c20(rng: &mut Rng, ctx: &GenCtx) -> Plan {
         }
         if rng.chance(1, 2) {
             steps.push(Step::Stop { sel: gen_sel(rng), fail: f(rng, 6), die_at: None });
+            if rng.chance(1, 2) {
+                // started again (a node without a fixed port listens somewhere else this time)
+                steps.push(Step::Start { sel: gen_sel(rng), interval: rng.chance(1, 2), fail: f(rng, 8), silent: false, die_at: None });
+            }
         }
     }
     if rng.chance(1, 4) {
@@ -615,7 +619,7 @@ impl Sim for ServicesSim {
                 rule: "One run = one seeded sequence of antctl invocations (add with random option vectors and counts 1..3, start, stop, remove, upgrade, status, by name or for all services), each executed as a fresh process: NodeRegistry::load from a real file, the real refresh_node_registry / add_node / ServiceManager<NodeService>::{start,stop,remove,upgrade}, save. All OS and RPC effects go to a simulated OS behind the repo's own ServiceControl / RpcActions traits. Mode fault adds: call #n (and sometimes #m) of an operation's ServiceControl/RpcActions calls fails with an error the real implementation returns, a launch that silently produces no process, external process death, manual removal of a service definition, and registry-file corruption between invocations; in the thorough tier (and 1/8 of quick fault runs) the failing call index of one operation per run is enumerated 0,1,2,... until it exceeds the calls made (inner evaluations). After every invocation the registry file is compared with the simulated OS. Non-trivial = >=3 operations and >=1 fault fired; distinct = distinct fingerprint of the executed operation kinds, results and fired faults.",
                 assumptions: vec![
                     "the antctl glue in ant-node-manager/src/cmd/node.rs (load registry, refresh, select services, operate, save on the same conditions) is mirrored step for step by the harness because it hard-wires the real ServiceController and RpcClient; the fixed-interval std::thread::sleep of that glue is skipped",
-                    "`antctl status` is mirrored with full_refresh=false: the full refresh path of refresh_node_registry constructs a real RpcClient internally (no seam)",
+                    "`antctl status` is mirrored with full_refresh=true as shipped; the RpcClient that refresh_node_registry constructs internally is replaced by the simulated RPC through a guarded factory seam (ant_node_manager::verif::set_rpc_factory)",
                     "ServiceControl::wait (std::thread::sleep of 3 s in the real implementation) is simulated time only",
                     "an injected get_process_pid failure is ServiceProcessNotFound for a live process (what the real sysinfo scan yields when the exe link is unreadable)",
                     "OS-assigned ports are never reused by the simulated OS; user-requested node/metrics/rpc ports come from disjoint small pools so collisions happen only between add commands",
